@@ -82,6 +82,14 @@ def fq(pkg, ty):
     return "." + ".".join(list(pkg) + [ty])
 
 
+
+def streaming_rpcs(i, tin, tout):
+    """the same pair of types under the three streaming cardinalities (the server base class annotates streaming
+    handlers with AsyncIterator[<reference>] — a reference evaluated where the class is defined, not lazily)"""
+    return ["  rpc SCall%d(stream %s) returns (stream %s);" % (i, tin, tout),
+            "  rpc CCall%d(stream %s) returns (%s);" % (i, tin, tout),
+            "  rpc RCall%d(%s) returns (stream %s);" % (i, tin, tout)]
+
 def refs_proto(cur, targets, fileof, lower_types=False, wkt=False, sites="all"):
     lines = ['syntax = "proto3";']
     for t in sorted(set(targets)):
@@ -97,6 +105,7 @@ def refs_proto(cur, targets, fileof, lower_types=False, wkt=False, sites="all"):
         body.append("  int32 plain = 1;")
         for i, t in enumerate(targets):
             rpcs.append("  rpc Call%d(%s) returns (%s);" % (i, fq(t, "Msg"), fq(t, "Msg.Inner")))
+            rpcs += streaming_rpcs(i, fq(t, "Msg"), fq(t, "Msg.Inner"))
         targets = []
     for i, t in enumerate(targets):
         body.append("  %s f%d = %d;" % (fq(t, "Msg"), i, n)); n += 1
@@ -109,6 +118,7 @@ def refs_proto(cur, targets, fileof, lower_types=False, wkt=False, sites="all"):
             body.append("  %s lt%d = %d;" % (fq(t, "lower.inner"), i, n)); n += 1
         if sites != "fields":
             rpcs.append("  rpc Call%d(%s) returns (%s);" % (i, fq(t, "Msg"), fq(t, "Msg.Inner")))
+            rpcs += streaming_rpcs(i, fq(t, "Msg"), fq(t, "Msg.Inner"))
     if wkt:
         for j, w in enumerate(WKT):
             body.append("  .google.protobuf.%s w%d = %d;" % (w, j, n)); n += 1
@@ -302,6 +312,10 @@ def _check_imported(u, g, tag, fails, facts, opts):
                 hs = [h for route, h in mapping.items() if route.endswith("/Call%d" % i)]
                 if len(hs) != 1 or hs[0].request_type is not want_in or hs[0].reply_type is not want_out:
                     fails.append(("reference-wrong-class", dict(inp, site="rpc-server"), repr(hs)[:300]))
+                for pre in ("SCall", "CCall", "RCall"):
+                    hs = [h for route, h in mapping.items() if route.endswith("/%s%d" % (pre, i))]
+                    if len(hs) != 1 or hs[0].request_type is not want_in or hs[0].reply_type is not want_out:
+                        fails.append(("reference-wrong-class", dict(inp, site="rpc-server-streaming"), "%s%d: %r" % (pre, i, hs)[:300]))
             # round trip a message through the referencing fields
             if only == "rpc":
                 continue
